@@ -95,7 +95,7 @@ func (lgtp2) Gen(rng *rand.Rand, tier string) []Case {
 		valid:   valid,
 		hdrLen:  func(p []byte) int { if len(p) > 30 { return 30 }; return len(p) },
 		residue: func(rng *rand.Rand) []byte { return g2Build(rng, 0x58, [][3]int{{1, -1, 8}, {82, -1, 1}, {93, -1, 0}}, 0, 0) },
-		seeds:   lmUDPSeeds(2123),
+		seeds:   lsUDPPayloads(2123),
 		extra: func(rng *rand.Rand, add func(ops ...string)) {
 			res := func() string { return lnHex(g2Build(rng, 0x58, [][3]int{{1, -1, 8}, {82, -1, 1}}, 0, 0)) }
 			for b := 0; b < 256; b++ { // every first octet: 8 octets after the 4-octet header, then one IE
